@@ -22,7 +22,7 @@ def run(ck):
         ck.guard("C03-R5", r5_wrappers, ck, F)
         ck.guard("C03-R6", r6_current, ck, F)
         ck.guard("C03-R7", r7_seek_load, ck, F)
-        ck.guard("C03-R5", r7_mirror, ck, F)
+        ck.guard("C03-R5", r7_mirror, ck, F, "C03-R5")
     if ck.tier == "thorough" or True:
         from . import witness
         ck.guard("C03-R4", witness.run, ck, "C03")
@@ -299,8 +299,7 @@ def r4_clone(ck, F):
 
 
 # ---------------------------------------------------------------------------------------
-def r5_wrappers(ck, F):
-    R = "C03-R5"
+def r5_wrappers(ck, F, R="C03-R5"):
     ibc = A("ibc_prefix")
     table = {
         "move_on_first": (A("ibc_iter"), A("bc_first")),
